@@ -5,6 +5,15 @@ every float operation before the final square root is exact; the model (coq/Mode
 over Q, np.round = round-half-even) is evaluated by vm_compute on the same inputs and compared
 inside Coq with the implementation's binary64 outputs read as exact rationals:
 squared Mahalanobis with `=`, everything that went through a square root root-free within 2^-50.
+
+Round 3: the model side is the flat-layout transcription (Model/PairwiseX.v: concatenate / broadcast /
+reshape, proved equal to the pairwise definitions); every call is made with both values of `squared`
+and the two outputs are tied to each other inside Coq; point sets are also drawn region by region
+(all points inside the centred cell, inside [0, c), inside one far image cell, on the half-cell
+lattice, in a tight cluster ...), independently for X and Y; inputs are presented as lists / tuples /
+integer / Fortran / strided / read-only arrays; Mahalanobis is called with Y=None and with precisions
+of the wrong size; inputs must be left untouched and a second call later in the run must return the
+same bits.
 """
 import itertools
 from fractions import Fraction as Fr
@@ -72,6 +81,54 @@ def gen_points(rng, d, n, cell, small):
     return rows, how
 
 
+REGIONS = ["centred", "corner", "negcorner", "samecell", "halfgrid", "lattice", "cluster", "general"]
+
+
+def gen_region(rng, d, n, cell, region, small, integral):
+    """n rows drawn from one region of space (relative to the cell); all values stay dyadic."""
+    mmax = 20 if small else 60
+    if region == "general":
+        rows, _ = gen_points(rng, d, n, cell, small)
+        if integral:
+            rows = [[float(round(v)) for v in r] for r in rows]
+        return rows
+    off = [rng.randint(-mmax, mmax) for _ in range(d)]
+    base = [rng.randint(-16 * 16, 16 * 16) / 16.0 for _ in range(d)]
+    rows = []
+    for _ in range(n):
+        row = []
+        for k in range(d):
+            c = cell[k]
+            if region == "centred":          # |x_k| <= c_k/2 (both bounds are reached)
+                v = rng.randint(-8, 8) / 16.0 * c
+            elif region == "corner":         # 0 <= x_k < c_k
+                v = rng.randint(0, 15) / 16.0 * c
+            elif region == "negcorner":      # -c_k < x_k <= 0
+                v = rng.randint(-15, 0) / 16.0 * c
+            elif region == "samecell":       # every point in the same far image of the centred cell
+                v = (off[k] + rng.randint(-8, 8) / 16.0) * c
+            elif region == "halfgrid":       # multiples of c_k/2: every difference is 0 or an exact tie
+                v = rng.randint(-12, 12) / 2.0 * c
+            elif region == "lattice":        # multiples of c_k: all distances are zero
+                v = float(rng.randint(-mmax, mmax)) * c
+            else:                            # cluster: all differences well inside half a cell
+                v = base[k] + off[k] * c + rng.randint(-3, 3) / 16.0 * c
+            row.append(float(round(v)) if integral else v)
+        rows.append(row)
+    return rows
+
+
+def gen_present(rng, case):
+    """How the same numbers are handed to the function (no effect on the model)."""
+    integral_pts = all(float(v).is_integer() for r in (case["X"] + (case["Y"] or [])) for v in r)
+    integral_cell = case["cell"] is not None and all(float(c).is_integer() for c in case["cell"])
+    arr = ["f64", "f64", "fortran", "strided", "readonly"] + (["int"] * 3 if integral_pts else [])
+    cel = ["array", "array", "list", "tuple", "readonly"] + (["intarray", "intlist"] if integral_cell else [])
+    return dict(X=rng.choice(arr), Y=rng.choice(arr), cell=rng.choice(cel),
+                P=rng.choice(["f64", "f64", "fortran", "strided", "readonly"]),
+                alias=(case["Y"] is None and rng.random() < 0.3))
+
+
 def gen_prec(rng, d):
     kind = rng.choice(["llt", "llt", "llt", "ident", "diag"])
     if kind == "ident":
@@ -93,17 +150,34 @@ def gen_case(rng, quick):
     nx, ny = rng.randint(1, nmax), rng.randint(1, nmax)
     cfam, cell = gen_cell(rng, d, small)
     rows, how = gen_points(rng, d, nx + ny, cell, small)
+    regions = None
+    integral = rng.random() < 0.12
+    if integral:
+        cfam, cell = "int", [float(rng.randint(1, 16 if small else 200)) for _ in range(d)]
+        rows = [[float(round(v)) for v in r] for r in rows]
     if rng.random() < 0.2:
         # every point of both sets inside the centred primary cell (|x_k| <= c_k/2): differences
         # still reach a whole cell length and must be folded
         rows = [[rng.randint(-8, 8) / 16.0 * cell[k] for k in range(d)] for _ in range(nx + ny)]
+        if integral:
+            rows = [[float(round(v)) for v in r] for r in rows]
         how = ["inside"] * (nx + ny)
+        regions = ["centred", "centred"]
+    elif rng.random() < 0.45:
+        # X and Y each drawn from one region of space, independently: a guard on where the points
+        # lie (or on how far apart the two sets are) shows up in one of the 64 combinations
+        rx = rng.choice(REGIONS)
+        ry = rx if rng.random() < 0.4 else rng.choice(REGIONS)
+        rows = gen_region(rng, d, nx, cell, rx, small, integral) + gen_region(rng, d, ny, cell, ry, small, integral)
+        how = [rx] * nx + [ry] * ny
+        regions = [rx, ry]
     case = dict(kind=kind, d=d, X=rows[:nx], Y=rows[nx:], how=how, cell=cell, cell_family=cfam,
-                squared=rng.random() < 0.5, mismatch=None)
+                squared=rng.random() < 0.5, mismatch=None, regions=regions, integral=integral)
     if rng.random() < 0.12:
         case["cell"] = None
-    if kind == "pp" and rng.random() < 0.15:
-        # Y=None: all rows go to X so that images / half-cell partners stay inside the call
+    if rng.random() < 0.15:
+        # Y=None (both functions: check_pairwise_arrays makes Y = X): all rows go to X so that
+        # images / half-cell partners stay inside the call
         case["X"], case["Y"] = rows, None
     if kind == "mh":
         k = rng.randint(1, 3)
@@ -121,40 +195,140 @@ def gen_case(rng, quick):
     elif r < 0.07 and case["Y"] is not None:
         case["Y"] = [row + [0.0] for row in case["Y"]]
         case["mismatch"] = "columns"
+    elif r < 0.13 and kind == "mh":
+        # a (square) precision of the wrong size: numpy's matmul must refuse it
+        dd = rng.choice([x for x in range(1, 8) if x != d])
+        precs = [gen_prec(rng, dd) for _ in case["P"]]
+        case["prec_kinds"] = [p[0] for p in precs]
+        case["L"] = [p[1] for p in precs]
+        case["P"] = [p[2] for p in precs]
+        case["mismatch"] = "precision"
+    case["present"] = gen_present(rng, case)
     return case
 
 
 # ------------------------------------------------------------------------------ implementation
-def run_impl(case):
-    from sklearn.metrics.pairwise import euclidean_distances
+def present_array(rows, how):
+    a = np.array(rows, dtype=float)
+    if how == "int":
+        return np.array(rows, dtype=np.int64)
+    if how == "fortran":
+        return np.asfortranarray(a)
+    if how == "strided":
+        big = np.full((a.shape[0], 2 * a.shape[1] + 1), 7.0)
+        big[:, 1::2] = a
+        return big[:, 1::2]
+    if how == "readonly":
+        a.setflags(write=False)
+    return a
+
+
+def present_stack(P, how):
+    a = np.array(P, dtype=float)
+    if how == "fortran":
+        return np.asfortranarray(a)
+    if how == "strided":
+        big = np.full(a.shape[:-1] + (2 * a.shape[-1] + 1,), 7.0)
+        big[..., 1::2] = a
+        return big[..., 1::2]
+    if how == "readonly":
+        a.setflags(write=False)
+    return a
+
+
+def present_cell(cell, how):
+    if cell is None:
+        return None
+    if how == "list":
+        return [float(c) for c in cell]
+    if how == "tuple":
+        return tuple(float(c) for c in cell)
+    if how == "intlist":
+        return [int(c) for c in cell]
+    if how == "intarray":
+        return np.array(cell, dtype=np.int64)
+    a = np.array(cell, dtype=float)
+    if how == "readonly":
+        a.setflags(write=False)
+    return a
+
+
+def snapshot(v):
+    return None if v is None else (v.copy() if isinstance(v, np.ndarray) else type(v)(v))
+
+
+def same(v, w):
+    if v is None or w is None:
+        return v is None and w is None
+    return np.array_equal(np.asarray(v), np.asarray(w)) and type(v) is type(w)
+
+
+def call_once(case, squared):
+    """One call through the public API.  Returns (output array or None, error name, error text,
+    names of the arguments the call modified)."""
     from skmatter.metrics import pairwise_mahalanobis_distances, periodic_pairwise_euclidean_distances
-    X = np.array(case["X"], dtype=float)
-    Y = None if case["Y"] is None else np.array(case["Y"], dtype=float)
-    cell = None if case["cell"] is None else np.array(case["cell"], dtype=float)
-    rec = {}
+    pr = case.get("present") or dict(X="f64", Y="f64", cell="array", P="f64", alias=False)
+    X = present_array(case["X"], pr["X"])
+    Y = None if case["Y"] is None else present_array(case["Y"], pr["Y"])
+    if pr.get("alias"):
+        Y = X
+    cell = present_cell(case["cell"], pr["cell"])
+    args = dict(X=X, Y=Y, cell_length=cell)
+    if case["kind"] == "mh":
+        P = present_stack(case["P"], pr["P"])
+        args["cov_inv"] = P[0] if case["cov2d"] else P
+    before = {k: snapshot(v) for k, v in args.items()}
+    out = err = msg = None
     try:
         if case["kind"] == "pp":
-            out = periodic_pairwise_euclidean_distances(X, Y, squared=case["squared"], cell_length=cell)
-            if cell is None:
-                rec["sklearn"] = euclidean_distances(X, Y, squared=case["squared"]).tolist()
+            out = periodic_pairwise_euclidean_distances(X, Y, squared=squared, cell_length=cell)
         else:
-            P = np.array(case["P"], dtype=float)
-            if case["cov2d"]:
-                P = P[0]
-            out = pairwise_mahalanobis_distances(X, Y, P, cell_length=cell, squared=case["squared"])
-            if cell is None:
+            out = pairwise_mahalanobis_distances(X, Y, args["cov_inv"], cell_length=cell, squared=squared)
+    except Exception as e:  # noqa
+        err, msg = type(e).__name__, str(e)[:200]
+    modified = [k for k, v in args.items() if not same(v, before[k])]
+    return out, err, msg, modified
+
+
+def run_impl(case):
+    from sklearn.metrics.pairwise import euclidean_distances
+    from skmatter.metrics import periodic_pairwise_euclidean_distances
+    rec = {}
+    out, err, msg, modified = call_once(case, case["squared"])
+    oth, oerr, _, modified2 = call_once(case, not case["squared"])
+    rec["inputs_modified"] = sorted(set(modified + modified2))
+    if err is not None:
+        rec["error"], rec["error_msg"] = err, msg
+    else:
+        rec["dtype"] = str(getattr(out, "dtype", type(out).__name__))
+        out = np.asarray(out, dtype=float)
+        rec["shape"] = list(out.shape)
+        rec["out"] = out.tolist()
+        rec["finite"] = bool(np.all(np.isfinite(out)))
+    if oerr is not None:
+        rec["other_error"] = oerr
+    else:
+        oth = np.asarray(oth, dtype=float)
+        rec["other"] = oth.tolist()
+        rec["other_isfinite"] = bool(np.all(np.isfinite(oth)))
+        rec["other_finite"] = rec["other_isfinite"] and (err is not None or list(oth.shape) == rec["shape"])
+    if err is None and case["mismatch"] is None:
+        # call-against-call references on the implementation side (used by the oracle's messages)
+        X = np.array(case["X"], dtype=float)
+        Y = X if case["Y"] is None else np.array(case["Y"], dtype=float)
+        cell = None if case["cell"] is None else np.array(case["cell"], dtype=float)
+        try:
+            if case["kind"] == "pp":
+                if cell is None:
+                    rec["sklearn"] = euclidean_distances(X, Y, squared=case["squared"]).tolist()
+            elif cell is None:
                 rec["whitened"] = [periodic_pairwise_euclidean_distances(
                     X @ np.array(L), Y @ np.array(L), squared=case["squared"]).tolist() for L in case["L"]]
             else:
                 rec["pp_same_cell"] = periodic_pairwise_euclidean_distances(
                     X, Y, squared=case["squared"], cell_length=cell).tolist()
-        out = np.asarray(out, dtype=float)
-        rec["shape"] = list(out.shape)
-        rec["out"] = out.tolist()
-        rec["finite"] = bool(np.all(np.isfinite(out)))
-    except Exception as e:  # noqa
-        rec["error"] = type(e).__name__
-        rec["error_msg"] = str(e)[:200]
+        except Exception as e:  # noqa
+            rec["reference_error"] = "%s: %s" % (type(e).__name__, str(e)[:200])
     return rec
 
 
@@ -176,21 +350,25 @@ def opt(s):
     return "None" if s is None else "(Some %s)" % s
 
 
+def out_lit(case, rec, key, errkey):
+    if errkey in rec:
+        return "None"
+    if case["kind"] == "pp":
+        return "(Some %s)" % qmat(rec[key])
+    return "(Some [%s])" % "; ".join(qmat(m) for m in rec[key])
+
+
 def case_coq(case, rec):
     X = qmat(case["X"])
     cell = opt(None if case["cell"] is None else qlist(case["cell"]))
     sq = "true" if case["squared"] else "false"
-    if "error" in rec:
-        out = "None"
-    elif case["kind"] == "pp":
-        out = "(Some %s)" % qmat(rec["out"])
-    else:
-        out = "(Some [%s])" % "; ".join(qmat(m) for m in rec["out"])
+    out = out_lit(case, rec, "out", "error")
+    oth = out_lit(case, rec, "other", "other_error")
+    Y = opt(None if case["Y"] is None else qmat(case["Y"]))
     if case["kind"] == "pp":
-        Y = opt(None if case["Y"] is None else qmat(case["Y"]))
-        return "pp_case_ok %s %s %s %s %s" % (X, Y, cell, sq, out)
+        return "ppx_case_ok %s %s %s %s %s %s" % (X, Y, cell, sq, out, oth)
     cov = "(Cov2 %s)" % qmat(case["P"][0]) if case["cov2d"] else "(Cov3 [%s])" % "; ".join(qmat(P) for P in case["P"])
-    return "mh_case_ok %s %s %s %s %s %s" % (X, qmat(case["Y"]), cov, cell, sq, out)
+    return "mhx_case_ok %s %s %s %s %s %s %s" % (X, Y, cov, cell, sq, out, oth)
 
 
 # ------------------------------------------------------------------------------ property oracle
@@ -218,6 +396,10 @@ def oracle(case, rec):
     expect_err = case["mismatch"] is not None
     if "error" in rec:
         if expect_err and rec["error"] == "ValueError":
+            if rec.get("other_error") != "ValueError":
+                return "mismatched %s dimension is rejected with squared=%s only" % (case["mismatch"], case["squared"])
+            if rec.get("inputs_modified"):
+                return "the rejected call modified its argument(s) %s" % ", ".join(rec["inputs_modified"])
             return None
         return "call raised %s: %s" % (rec["error"], rec.get("error_msg"))
     if expect_err:
@@ -263,6 +445,22 @@ def oracle(case, rec):
                     if not ok:
                         return "Mahalanobis distance [%d](%d,%d) = %r is not v^T P v on the minimum-image difference" % (
                             k, i, j, out[k][i][j])
+    if rec.get("inputs_modified"):
+        return "the call modified its argument(s) %s in place" % ", ".join(rec["inputs_modified"])
+    if rec.get("repeat_differs"):
+        return "the same call made again later in the run returned different values (hidden state between calls)"
+    if rec.get("dtype") != "float64":
+        return "output dtype %s, expected float64" % rec.get("dtype")
+    if "other_error" in rec:
+        return "the same call with squared=%s raised %s" % (not case["squared"], rec["other_error"])
+    if not rec.get("other_finite"):
+        return "the same call with squared=%s returned a non-finite value or another shape" % (not case["squared"])
+    root, sqv = (rec["other"], rec["out"]) if case["squared"] else (rec["out"], rec["other"])
+    root, sqv = np.array(root, dtype=float), np.array(sqv, dtype=float)
+    if np.any(root < 0) or not np.allclose(root * root, sqv, rtol=1e-12, atol=0):
+        return "squared=True does not return the square of the squared=False result"
+    if "reference_error" in rec:
+        return "reference call on the same data failed: " + rec["reference_error"]
     if "sklearn" in rec and not np.allclose(np.array(out), np.array(rec["sklearn"]), rtol=1e-12, atol=0):
         return "without a cell the result differs from sklearn's euclidean_distances"
     if "whitened" in rec and not np.allclose(np.array(out), np.array(rec["whitened"]), rtol=1e-11, atol=0):
@@ -294,11 +492,14 @@ def measure(case):
 
 def run(ctx):
     po = C.proof_obligations(ctx.prop)
-    ncases = 1500 if ctx.quick else 30000
+    ncases = 1500 if ctx.quick else 12000
     cases, recs = [], []
     stats = dict(kinds={}, dims={}, cell_families={}, no_cell=0, y_none=0, squared=0, rejected=0,
                  mismatch_cases=0, errors=0, wrapped_coords=0, half_cell_ties=0, max_abs_quotient=0.0,
-                 cases_with_tie=0, prec_kinds={}, stack_sizes={}, pairs=0, row_kinds={})
+                 cases_with_tie=0, prec_kinds={}, stack_sizes={}, pairs=0, row_kinds={},
+                 region_pairs={}, presentations={}, mismatch_kinds={}, y_none_by_kind={}, integral=0, aliased=0,
+                 flag_pairs_compared=0, purity_checked_calls=0, repeat_calls=0, within_half_cases=0,
+                 all_points_in_centred_cell_but_fold_needed=0)
     seen, nontrivial = set(), 0
     for _ in range(ncases):
         c = gen_case(ctx.rng, ctx.quick)
@@ -312,6 +513,20 @@ def run(ctx):
         stats["y_none"] += c["Y"] is None
         stats["squared"] += c["squared"]
         stats["mismatch_cases"] += c["mismatch"] is not None
+        if c["mismatch"]:
+            stats["mismatch_kinds"][c["mismatch"]] = stats["mismatch_kinds"].get(c["mismatch"], 0) + 1
+        if c["Y"] is None:
+            stats["y_none_by_kind"][c["kind"]] = stats["y_none_by_kind"].get(c["kind"], 0) + 1
+        if c["regions"]:
+            key = "/".join(c["regions"])
+            stats["region_pairs"][key] = stats["region_pairs"].get(key, 0) + 1
+        for arg, how in c["present"].items():
+            key = "%s:%s" % (arg, how)
+            stats["presentations"][key] = stats["presentations"].get(key, 0) + 1
+        stats["integral"] += c["integral"]
+        stats["aliased"] += bool(c["present"]["alias"])
+        stats["flag_pairs_compared"] += "error" not in r and "other_error" not in r
+        stats["purity_checked_calls"] += 2
         stats["errors"] += "error" in r
         stats["rejected"] += r.get("error") == "ValueError"
         for h in c["how"]:
@@ -322,6 +537,10 @@ def run(ctx):
             key = "2d" if c["cov2d"] else str(len(c["P"]))
             stats["stack_sizes"][key] = stats["stack_sizes"].get(key, 0) + 1
         w, t, qm = measure(c)
+        if c["cell"] is not None and not c["mismatch"]:
+            stats["within_half_cases"] += w == 0
+            inside = all(abs(Fr(v)) <= Fr(cc) / 2 for row in (c["X"] + (c["Y"] or [])) for v, cc in zip(row, c["cell"]))
+            stats["all_points_in_centred_cell_but_fold_needed"] += inside and w > 0
         stats["wrapped_coords"] += w
         stats["half_cell_ties"] += t
         stats["cases_with_tie"] += t > 0
@@ -331,8 +550,25 @@ def run(ctx):
         if w > 0 and h not in seen and "error" not in r:
             nontrivial += 1
         seen.add(h)
+    # every call once more, in reverse order, after all the other calls: same bits, or hidden state
+    side = []
+    for i in reversed(range(len(cases))):
+        out, err, _, modified = call_once(cases[i], cases[i]["squared"])
+        stats["repeat_calls"] += 1
+        r = recs[i]
+        if err is not None or "error" in r:
+            differs = err != r.get("error")
+        else:
+            out = np.asarray(out, dtype=float)
+            differs = list(out.shape) != r["shape"] or not np.array_equal(out, np.array(r["out"], dtype=float), equal_nan=True)
+        if differs:
+            r["repeat_differs"] = True
+        if modified:
+            r["inputs_modified"] = sorted(set(r["inputs_modified"] + modified))
+        if differs or r["inputs_modified"] or ("error" not in r and r.get("dtype") != "float64"):
+            side.append(i)
     # correspondence inside Coq
-    idx = [i for i, r in enumerate(recs) if "error" in r or r["finite"]]
+    idx = [i for i, r in enumerate(recs) if ("error" in r or r["finite"]) and ("other_error" in r or r["other_isfinite"])]
     groups, cur, size = [], [], 0
     texts = {}
     for i in idx:
@@ -347,7 +583,7 @@ def run(ctx):
     shards = []
     for g in groups:
         body = ";\n ".join(texts[i] for i in g)
-        shards.append(C.SHARD_HEAD + "From Verif Require Import ListX Pairwise.\nOpen Scope Q_scope.\n"
+        shards.append(C.SHARD_HEAD + "From Verif Require Import ListX Pairwise PairwiseX.\nOpen Scope Q_scope.\n"
                       "Definition verdicts : list bool := [\n %s].\n"
                       "Eval vm_compute in (failing verdicts).\n" % body)
     outs = run_shards_retry(ctx.prop, shards)
@@ -359,13 +595,14 @@ def run(ctx):
             continue
         mismatched += [g[k] for k in lists[0]]
     mismatched += [i for i in range(len(recs)) if i not in set(idx)]
+    mismatched += side       # input modified in place / second call differs / wrong dtype
     # an exception that is not the expected rejection is examined by the oracle as well
     mismatched += [i for i, r in enumerate(recs) if "error" in r and r["error"] != "ValueError"]
     n_search = 0
     for i in sorted(set(mismatched)):
         msg = oracle(cases[i], recs[i])
         n_search += 1
-        rep = dict(case=cases[i], observed=recs[i], correspondence="pp_case_ok/mh_case_ok (Model/Pairwise.v)")
+        rep = dict(case=cases[i], observed=recs[i], correspondence="ppx_case_ok/mhx_case_ok (Model/PairwiseX.v) + purity / repeat-call / dtype checks")
         if msg:
             C.report_violation(ctx, "C15 fails on the implementation: " + msg, rep, found_input=True)
         else:
@@ -384,7 +621,7 @@ def run(ctx):
                trusted_base=C.TRUSTED_BASE_COMMON + [
                    "binary64 subtraction, division, np.round, multiplication and BLAS sums are exact (division: "
                    "correctly rounded and far from rounding ties) on the dyadic exactness domain "
-                   "(points k/16, |x| < 2^14, cells k/8 <= 200, precisions k/16)",
+                   "(points k/128, |x| < 2^14, cells k/8 <= 200.25, precisions k/16)",
                    "square roots (np.linalg.norm, **0.5) are compared root-free within relative 2^-50"],
                evaluations=len(cases), distinct_nontrivial=nontrivial,
                rule="dyadic point sets in 1..6 dimensions, cell families %s; non-trivial = distinct accepted call with a "
@@ -399,7 +636,12 @@ def run(ctx):
 
 def replay(ctx, obj):
     c = obj["case"]
+    c.setdefault("regions", None)
     r = run_impl(c)
+    out2, err2, _, _ = call_once(c, c["squared"])
+    if (err2 != r.get("error")) or (err2 is None and not np.array_equal(
+            np.asarray(out2, dtype=float), np.array(r["out"], dtype=float), equal_nan=True)):
+        r["repeat_differs"] = True
     msg = oracle(c, r)
     print("replay:", msg or "property holds on this input now")
     return 1 if msg else 0
